@@ -112,7 +112,7 @@ func NewRelayerConfig(rawConfig RawRelayerConfig) (RelayerConfig, error) {
 	config.LogFile = rawConfig.LogFile
 	config.OpenTelemetryCollectorURL = rawConfig.OpenTelemetryCollectorURL
 
-	healthPort, err := strconv.ParseInt(rawConfig.HealthPort, 0, 16)
+	healthPort, err := strconv.ParseUint(rawConfig.HealthPort, 0, 16)
 	if err != nil {
 		return RelayerConfig{}, fmt.Errorf("unable to parse health port %v", err)
 	}
@@ -138,7 +138,7 @@ func NewRelayerConfig(rawConfig RawRelayerConfig) (RelayerConfig, error) {
 func parseMpcConfig(rawConfig RawRelayerConfig) (MpcRelayerConfig, error) {
 	var mpcConfig MpcRelayerConfig
 
-	port, err := strconv.ParseInt(rawConfig.MpcConfig.Port, 0, 16)
+	port, err := strconv.ParseUint(rawConfig.MpcConfig.Port, 0, 16)
 	if err != nil {
 		return MpcRelayerConfig{}, fmt.Errorf("unable to parse mpc port from config %v", err)
 	}
